@@ -1,6 +1,6 @@
 (* C20 — send_buffer_size() is exact and returns to zero. Statements only; proofs in proofs/SenderProofs.v.
    send_buffer_size() is PacketSender::total_size (model: s_total), see HalfConn.hc_send_buffer_size. *)
-From UF Require Import Consts Base Frame Sender SenderProofs HalfConn.
+From UF Require Import Consts Base Frame Sender SenderProofs HalfConn HcTotal HcLevel.
 
 (* For every sequence of sender operations (send, emit with any flush id — which includes the
    TimeSensitive drops —, acknowledge with ANY base id, fragment acknowledgements for ANY reference),
@@ -12,6 +12,18 @@ Theorem C20_exact :
     s_total s = queued_bytes s + window_bytes s.
 Proof. intros w b m ops Hw Hb. exact (wf_total _ (sender_reachable_wf w b m ops Hw Hb)). Qed.
 Print Assumptions C20_exact.
+
+(* The same for HalfConnection::send_buffer_size() itself: in EVERY state reached by ANY sequence of send /
+   receive / step / flush / frame operations — frames with any contents, genuine or forged acknowledgements —
+   the value is exactly the payload bytes still queued plus those in the unacknowledged window, and 0 when
+   both are empty. *)
+Theorem C20_half_connection_exact :
+  forall c seed ops, cfg_ok c -> Forall op_ok ops ->
+    let h := fold_left hc_apply ops (hc_new c seed) in
+    hc_send_buffer_size h = queued_bytes (h_snd h) + window_bytes (h_snd h) /\
+    (s_queue (h_snd h) = [] -> s_win (h_snd h) = [] -> hc_send_buffer_size h = 0).
+Proof. intros c seed ops Hc Ho h. destruct (hc_send_buffer_exact c seed ops Hc Ho) as (A & B & _). split; assumption. Qed.
+Print Assumptions C20_half_connection_exact.
 
 (* ... hence zero once everything has been acknowledged *)
 Theorem C20_zero :
